@@ -353,6 +353,8 @@ type C13ResCase struct {
 	Ifaces  []string          `json:"ifaces"`
 	Table   map[string]string `json:"table"`
 	Queries []string          `json:"queries"`
+	// InfoFails: the resolver answers GetInfo with an error; the helper must report it, not zero values
+	InfoFails bool `json:"info_fails,omitempty"`
 }
 
 type resolverIface struct{ c C13ResCase }
@@ -364,6 +366,9 @@ func (r *resolverIface) VarlinkGetDescription() string {
 func (r *resolverIface) VarlinkDispatch(ctx context.Context, c varlink.Call, m string) error {
 	switch m {
 	case "GetInfo":
+		if r.c.InfoFails {
+			return c.ReplyError(ctx, "org.varlink.resolver.Unavailable", map[string]string{"why": "scripted"})
+		}
 		return c.Reply(ctx, map[string]interface{}{"vendor": r.c.Ident[0], "product": r.c.Ident[1], "version": r.c.Ident[2], "url": r.c.Ident[3], "interfaces": r.c.Ifaces})
 	case "Resolve":
 		var in struct {
@@ -403,6 +408,7 @@ func genC13Res(t *rapid.T) C13ResCase {
 		c.Queries = append(c.Queries, k)
 	}
 	c.Queries = append(c.Queries, "org.varlink.resolver", "not.registered.anywhere")
+	c.InfoFails = rapid.IntRange(0, 9).Draw(t, "infofails") == 3
 	return c
 }
 
@@ -436,6 +442,14 @@ func checkC13Res(c C13ResCase, st *Stats) error {
 	verr := func() error {
 		v, p, ver, u := "\x01", "\x01", "\x01", "\x01"
 		var ifs []string
+		if c.InfoFails {
+			err := res.GetInfo(cctx, &v, &p, &ver, &u, &ifs)
+			ve, is := err.(*varlink.Error)
+			if !is || ve.Name != "org.varlink.resolver.Unavailable" {
+				return fmt.Errorf("Resolver.GetInfo returned %v (%T) although the resolver answered with the error org.varlink.resolver.Unavailable", err, err)
+			}
+			return nil
+		}
 		if err := res.GetInfo(cctx, &v, &p, &ver, &u, &ifs); err != nil {
 			return fmt.Errorf("Resolver.GetInfo failed: %v", err)
 		}
